@@ -300,6 +300,7 @@ func c17Page(rt *rapid.T) (files map[string]string, page string, markers []strin
 	}
 	long := "zz" + strings.Repeat("VeryLongIdentifier_", 16) // messages that embed a name can be long: shown whole or not at all
 	fault := rapid.SampledFrom([]string{"{{ zzMissing }}", "{{ 1 / 0 }}", "{{ name + 1 }}", "{{ name.nosuchfn() }}", "{{ {a: 1}.zz }}",
+		"{{ [1, 2]['1'] }}", "{{ {a: 1}[0] }}", "{{ [1, 2][name] }}", "{{ {a: 1}[nil] }}", "{{ [1, 2][1.5] }}", "{{ name[0] }}", "{{ 5 % 0 }}", "{{ [1].slice('a') }}", "{{ name.repeat(-1).at('x') }}",
 		"{{ " + long + " }}", "{{ {a: 1}." + long + " }}", "{{ name." + long + "() }}"}).Draw(rt, "fault")
 	shape := rapid.SampledFrom([]string{"ok", "ok-layout", "top", "in-loop", "in-layout", "in-component", "in-slot", "missing", "after-nested-render", "ok-nested-render",
 		"in-each-else", "in-for-else", "in-nested-else", "in-elseif", "in-header", "in-control", "in-insert-expression"}).Draw(rt, "shape")
@@ -338,12 +339,12 @@ func c17Page(rt *rapid.T) (files map[string]string, page string, markers []strin
 		files["page"], fails = b.String()+"@each(o in [1, 2])LOOP-MARK@if(o == 2)@each(i in [])never@else"+fault+"@end@end@end\nAFTER-MARK", true
 		markers = append(markers, "LOOP-MARK", "AFTER-MARK")
 	case "in-elseif":
-		files["page"], fails = b.String()+rapid.SampledFrom([]string{"@if(false)a@elseif("+faultExpr+")b@else c@end", "@if(false)a@elseif(true)"+fault+"@else c@end", "@if(false)a@elseif(false)b@else"+fault+"@end",
-			"{{ true ? "+faultExpr+" : 1 }}", "{{ false ? 1 : "+faultExpr+" }}", "{{ ["+faultExpr+"] }}", "{{ x = "+faultExpr+" }}", "{{ 1; "+faultExpr+" }}"}).Draw(rt, "branchForm")+"\nAFTER-MARK", true
+		files["page"], fails = b.String()+rapid.SampledFrom([]string{"@if(false)a@elseif(" + faultExpr + ")b@else c@end", "@if(false)a@elseif(true)" + fault + "@else c@end", "@if(false)a@elseif(false)b@else" + fault + "@end",
+			"{{ true ? " + faultExpr + " : 1 }}", "{{ false ? 1 : " + faultExpr + " }}", "{{ [" + faultExpr + "] }}", "{{ x = " + faultExpr + " }}", "{{ 1; " + faultExpr + " }}"}).Draw(rt, "branchForm")+"\nAFTER-MARK", true
 		markers = append(markers, "AFTER-MARK")
 	case "in-header":
-		files["page"], fails = b.String()+rapid.SampledFrom([]string{"@if("+faultExpr+")a@end", "@each(i in ["+faultExpr+"])a@end", "@each(i in "+faultExpr+")a@else b@end", "@for(i = "+faultExpr+"; i < 2; i++)a@end",
-			"@for(i = 0; "+faultExpr+"; i++)a@end", "@for(i = 0; i < 2; "+faultExpr+")LOOP-MARK@end"}).Draw(rt, "headerForm")+"\nAFTER-MARK", true
+		files["page"], fails = b.String()+rapid.SampledFrom([]string{"@if(" + faultExpr + ")a@end", "@each(i in [" + faultExpr + "])a@end", "@each(i in " + faultExpr + ")a@else b@end", "@for(i = " + faultExpr + "; i < 2; i++)a@end",
+			"@for(i = 0; " + faultExpr + "; i++)a@end", "@for(i = 0; i < 2; " + faultExpr + ")LOOP-MARK@end"}).Draw(rt, "headerForm")+"\nAFTER-MARK", true
 		markers = append(markers, "AFTER-MARK")
 	case "in-control":
 		files["page"], fails = b.String()+"@each(i in [1, 2])LOOP-MARK"+rapid.SampledFrom([]string{"@breakIf(", "@continueIf("}).Draw(rt, "ctlForm")+faultExpr+")@end\nAFTER-MARK", true
